@@ -238,6 +238,7 @@ def suggestion_and_delta(fval: float, sval: str, key: int, val: str, ns1: int, t
   """
   if not _finite(fval):
     return True
+  args = (fval, sval, key, val, ns1, tid, count)
   key, ns1 = _KEYS[conc(key, 0, 3)], _NSS[conc(ns1, 0, 4)]      # dict keys are concrete (hashing realises symbolic strings)
   tid = conc(tid, 1, 2)
   sug = vz.TrialSuggestion({'f': fval, 's': sval})
@@ -254,7 +255,7 @@ def suggestion_and_delta(fval: float, sval: str, key: int, val: str, ns1: int, t
   ok = ok and back.suggestions[0].metadata.ns(ns1)[key] == val
   ok = ok and back.metadata.on_study.ns(ns1)[key] == val and back.metadata.on_trials[tid].ns('t')[key] == val
   ok = ok and list(back.metadata.on_trials.keys()) == [tid] and p2 == p1
-  return finish(ok, (fval, sval, key, val, ns1, tid, count))
+  return finish(ok, args)
 
 
 def study_config_roundtrip(algo: int, noise: int, stopping: bool, lo: float, hi: float, key: int, val: str) -> bool:
@@ -262,6 +263,7 @@ def study_config_roundtrip(algo: int, noise: int, stopping: bool, lo: float, hi:
   pre: 0 <= algo <= 2 and 0 <= noise <= 2 and 0 <= key <= 3 and len(val) <= 1
   post: _
   """
+  args = (algo, noise, stopping, lo, hi, key, val)
   algo, noise = conc(algo, 0, 2), conc(noise, 0, 2)
   key = _KEYS[conc(key, 0, 3)]
   if not (_finite(lo) and _finite(hi) and lo <= hi):
@@ -282,4 +284,4 @@ def study_config_roundtrip(algo: int, noise: int, stopping: bool, lo: float, hi:
   ok = ok and (back.automated_stopping_config is None) == (sc.automated_stopping_config is None)
   ok = ok and back.search_space == sc.search_space and list(back.metric_information) == list(sc.metric_information)
   ok = ok and back.metadata[key] == val and back.metadata.ns('n')[key] == val and p2 == p1
-  return finish(ok, (algo, noise, stopping, lo, hi, key, val))
+  return finish(ok, args)
